@@ -765,6 +765,16 @@ func (ke *KindEngine) eval(v ssa.Value) *AV {
 			if b != nil {
 				sb = b.Scalar
 			}
+			// a quadkey is a packed (bit-interleaved) value: whatever is carved out of it
+			// with shifts, masks, division or remainder is no longer a quadkey -- it is a
+			// component whose kind this analysis does not derive
+			if sa.has(kQK) || sb.has(kQK) {
+				sa &^= ks(kQK)
+				sb &^= ks(kQK)
+				if sa == 0 && sb == 0 {
+					return nil
+				}
+			}
 			if x.Op == token.SHL || x.Op == token.SHR {
 				// shift count does not contribute
 				return scalarAV(sa)
